@@ -155,3 +155,179 @@ Proof.
   - apply (f_equal (@length Z)) in E. rewrite rev_length in E. cbn in *. lia.
   - rewrite app_length, rev_length. apply (f_equal (@length Z)) in E. rewrite rev_length in E. cbn in *. lia.
 Qed.
+
+Lemma newPointerList_safe m sid n : dok m -> 0 <= sid < nsegs m ->
+  match newPointerList m sid n with
+  | Panic => False | Err => True
+  | Ok (m', p) => dok m' /\ grows m m' /\ 0 <= n /\ region_ok m' (p_seg p) (p_off p) (8 * n) /\ cp_ok m' p /\
+                  p = mkPtr true (p_seg p) (p_off p) n (mkOS 0 1) maxDepth KList false false false /\
+                  bm_caps m' = bm_caps m /\ bm_rl m' = bm_rl m
+  end.
+Proof.
+  intros Hd Hs. unfold newPointerList. destruct (times 8 n) as [total|] eqn:Et; [|exact I].
+  apply times_spec in Et. destruct Et as [-> Et].
+  pose proof (alloc_nopanic m sid (8 * n)) as NP.
+  destruct (alloc m sid (8 * n)) as [[[m1 s1] addr]| |] eqn:EA; cbn [bind]; [|exact I|congruence].
+  destruct (alloc_safe m sid (8 * n) m1 s1 addr Hd Hs ltac:(lia) EA) as (D1 & G1 & S1 & A0 & A1 & A2 & A3 & _ & C1 & C2).
+  cbn [p_seg p_off]. split; [exact D1|]. split; [exact G1|]. split; [lia|]. split; [unfold region_ok; lia|].
+  split; [|split; [reflexivity|split; assumption]].
+  intros _. cbn [p_seg p_member]. split; [exact S1|]. split; [reflexivity|].
+  intros _. cbn [p_kind p_comp p_bit p_size]. unfold prim_size. tauto.
+Qed.
+
+Lemma newCompositeList_safe m sid sz n : dok m -> 0 <= sid < nsegs m -> csz_ok sz ->
+  match newCompositeList m sid sz n with
+  | Panic => False | Err => True
+  | Ok (m', p) => dok m' /\ grows m m' /\ 0 <= n /\ wf_size (p_size p) /\
+                  region_ok m' (p_seg p) (p_off p) (n * totalSize (p_size p)) /\ cp_ok m' p /\
+                  p = mkPtr true (p_seg p) (p_off p) n (p_size p) maxDepth KList true false false /\
+                  bm_caps m' = bm_caps m /\ bm_rl m' = bm_rl m
+  end.
+Proof.
+  intros Hd Hs Hc. unfold newCompositeList. destruct (os_isValid sz) eqn:Hv; cbn [negb]; [|exact I].
+  destruct ((n <? 0) || (n >=? 536870912)) eqn:En; [exact I|].
+  destruct (padded_size sz Hc Hv) as (Hw & H8 & Hts). cbv zeta in Hw, H8, Hts.
+  set (sz' := mkOS (padToWord (DataSize sz)) (PointerCount sz)) in *.
+  destruct (times (totalSize sz') n) as [total|] eqn:Et; [|exact I].
+  apply times_spec in Et. destruct Et as [-> Et].
+  destruct (totalSize sz' * n >? maxSegmentSize - 8) eqn:Eb; [exact I|]. unfold maxSegmentSize in *.
+  rewrite (u32_id (8 + totalSize sz' * n)) by lia.
+  pose proof (alloc_nopanic m sid (8 + totalSize sz' * n)) as NP.
+  destruct (alloc m sid (8 + totalSize sz' * n)) as [[[m1 s1] addr]| |] eqn:EA; cbn [bind]; [|exact I|congruence].
+  destruct (alloc_safe m sid (8 + totalSize sz' * n) m1 s1 addr Hd Hs ltac:(lia) EA)
+    as (D1 & G1 & S1 & A0 & A1 & A2 & A3 & _ & C1 & C2).
+  destruct (rawStructPointer_some n sz' H8) as [tag ->]. cbn [of_opt_panic bind].
+  destruct (writeRaw_safe m1 s1 addr tag D1 ltac:(unfold region_ok; lia)) as (m2 & -> & D2 & N2 & L2 & C3 & C4).
+  cbn [bind]. destruct D1 as [I1 Sm1]. pose proof (Sm1 s1) as Sm. unfold maxSegmentSize in Sm.
+  unfold addSizeUnchecked. rewrite (u32_id (addr + 8)) by lia. cbn [p_seg p_off p_size].
+  split; [exact D2|]. split; [eapply grows_trans; [exact G1|apply same_len_grows; auto]|].
+  split; [lia|]. split; [exact Hw|]. split; [unfold region_ok; rewrite N2, (L2 s1) by lia; lia|].
+  split; [|split; [reflexivity|split; congruence]].
+  intros _. cbn [p_seg p_member]. split; [rewrite N2; exact S1|]. split; [reflexivity|].
+  intros _. cbn [p_kind p_comp p_bit p_size p_off]. split; [lia|]. split; [exact H8|reflexivity].
+Qed.
+
+(* ------------------------------------------------------------------ unfolding equations *)
+Lemma fill_canonical_S c fx f w dst s :
+  fill_canonical c fx (S f) w dst s =
+    kbind (of_res (slice (dst_seg w dst) (p_off dst) (DataSize (p_size dst)))) (fun dd =>
+    kbind (of_res (slice (src_seg w s) (p_off s) (DataSize (p_size s)))) (fun sd =>
+    let n := Nat.min (length dd) (length sd) in
+    kbind (of_res (lift0 w (seg_write (w_dst w) (p_seg dst) (p_off dst) (firstn n sd)))) (fun w1 =>
+    kfold (iota (Z.to_nat (PointerCount (p_size dst)))) w1
+      (fun wa i =>
+         let '(r, rl') := struct_ptr c (w_src wa) (w_src_rl wa) s i in
+         let wb := w_set_rl wa InSrc rl' in
+         kbind (of_res r) (fun p =>
+         kbind (canonical_ptr c fx f wb (p_seg dst) p) (fun wc =>
+         let '(w2, cp) := wc in
+         of_res (struct_set_ptr 4 w2 dst i InDst cp))))))).
+Proof. reflexivity. Qed.
+
+Lemma canonical_ptr_S c fx f w sid p :
+  canonical_ptr c fx (S f) w sid p =
+    if negb (p_valid p) then KOk (w, nullPtr) else
+    match p_kind p with
+    | KStruct =>
+      kbind (of_res (canonicalStructSize (cx_farnull fx) (cfg_strict c) (w_src w) p)) (fun sz =>
+      kbind (of_res (lift w (newStruct (w_dst w) sid sz))) (fun ws =>
+      let '(w1, ss) := ws in
+      kbind (fill_canonical c fx f w1 ss p) (fun w2 => KOk (w2, ss))))
+    | KList => canonical_list c fx f w sid p
+    | KIface => KErr
+    end.
+Proof. reflexivity. Qed.
+
+Lemma canonical_list_S c fx f w sid l :
+  canonical_list c fx (S f) w sid l =
+    if negb (p_valid l) then KOk (w, nullPtr)
+    else if (PointerCount (p_size l) =? 0) && negb (cx_complist fx && p_comp l) then
+      let sz := list_allocSize l in
+      kbind (of_res (alloc (w_dst w) sid sz)) (fun a =>
+      let '(m1, nsid, naddr) := a in
+      let cl := mkPtr true nsid naddr (p_len l) (p_size l) maxDepth KList (p_comp l) (p_bit l) false in
+      kbind (of_res (slice (src_seg w l) (p_off l) sz)) (fun bs =>
+      let bs := if cx_bitpad fx && p_bit l then mask_last (p_len l) bs else bs in
+      kbind (of_res (lift0 (w_set_dst w m1) (seg_write m1 nsid naddr bs))) (fun w2 =>
+      KOk (w2, cl))))
+    else if negb (p_comp l) then
+      kbind (of_res (lift w (newPointerList (w_dst w) sid (p_len l)))) (fun wc =>
+      let '(w1, cl) := wc in
+      kbind (kfold (iota (Z.to_nat (list_len l))) w1
+               (fun wa i =>
+                  let '(r, rl') := ptrlist_at c (fx_upgrade (cx_rd fx)) (w_src wa) (w_src_rl wa) l i in
+                  let wb := w_set_rl wa InSrc rl' in
+                  kbind (of_res r) (fun p =>
+                  kbind (canonical_ptr c fx f wb sid p) (fun wd =>
+                  let '(w2, cp) := wd in
+                  of_res (ptrlist_set 4 w2 cl i InDst cp)))))
+            (fun w3 => KOk (w3, cl)))
+    else
+      kbind (of_res (elem_size (cx_farnull fx) (cfg_strict c) (fx_depth (cx_rd fx)) (w_src w) l (Z.to_nat (list_len l)) 0 (mkOS 0 0))) (fun esz =>
+      kbind (of_res (lift w (newCompositeList (w_dst w) sid esz (p_len l)))) (fun wc =>
+      let '(w1, cl) := wc in
+      kbind (kfold (iota (Z.to_nat (list_len cl))) w1
+               (fun wa i =>
+                  kbind (of_res (list_struct (fx_depth (cx_rd fx)) cl i)) (fun de =>
+                  kbind (of_res (list_struct (fx_depth (cx_rd fx)) l i)) (fun se =>
+                  fill_canonical c fx f wa de se))))
+            (fun w3 => KOk (w3, cl)))).
+Proof. reflexivity. Qed.
+
+(* ------------------------------------------------------------------ the three mutually recursive functions *)
+Definition P_fill (c : config) (fx : cfix) (f : nat) : Prop := forall w dst s,
+  dok (w_dst w) -> msg_ok (w_src w) -> 0 <= w_src_rl w -> dst_ok (w_dst w) dst ->
+  wf_struct (w_src w) s -> p_valid s = true ->
+  kpostw w (fill_canonical c fx f w dst s).
+Definition P_ptr (c : config) (fx : cfix) (f : nat) : Prop := forall w sid p,
+  dok (w_dst w) -> msg_ok (w_src w) -> 0 <= w_src_rl w -> 0 <= sid < nsegs (w_dst w) ->
+  wf_ptr (w_src w) p -> shape_ok p ->
+  kpostp w (canonical_ptr c fx f w sid p).
+Definition P_list (c : config) (fx : cfix) (f : nat) : Prop := forall w sid l,
+  dok (w_dst w) -> msg_ok (w_src w) -> 0 <= w_src_rl w -> 0 <= sid < nsegs (w_dst w) ->
+  wf_list (w_src w) l -> shape_ok l ->
+  kpostp w (canonical_list c fx f w sid l).
+
+Lemma wgood_rl w wa rl' : wgood w wa -> 0 <= rl' <= w_src_rl wa -> wgood w (w_set_rl wa InSrc rl').
+Proof. intros (D & G & S & R) H. split; [exact D|]. split; [exact G|]. split; [exact S|]. cbn. lia. Qed.
+
+Lemma fill_step c fx f : cfg_strict c = true -> P_ptr c fx f -> P_fill c fx (S f).
+Proof.
+  intros Hc IH w dst s Hd Hm Hr Hdst Hs V. pose proof Hdst as (Vd & Zd & Rd). rewrite fill_canonical_S.
+  unfold dst_seg, src_seg. rewrite nth_bm_data. unfold wf_size in Zd.
+  destruct (dst_slice (w_dst w) (p_seg dst) (p_off dst) (DataSize (p_size dst)) Hd
+              ltac:(destruct Rd as (R1 & R2 & R3); unfold region_ok; lia) ltac:(lia)) as [-> Ld].
+  cbn [of_res kbind].
+  destruct (src_data_slice _ s Hm Hs V) as [-> Ls]. cbn [of_res kbind].
+  set (sd := sub (seg_of (w_src w) s) (p_off s) (DataSize (p_size s))) in *.
+  set (dd := sub (mem (w_dst w) (p_seg dst)) (p_off dst) (DataSize (p_size dst))) in *.
+  assert (zlen (firstn (Nat.min (length dd) (length sd)) sd) <= DataSize (p_size dst)) as Lb.
+  { unfold zlen in *. rewrite firstn_length. lia. }
+  destruct (seg_write_safe (w_dst w) (p_seg dst) (p_off dst) (firstn (Nat.min (length dd) (length sd)) sd) Hd
+              ltac:(destruct Rd as (R1 & R2 & R3); unfold region_ok; lia)) as (m1 & -> & D1 & N1 & L1 & _).
+  cbn [lift0 bind of_res kbind].
+  assert (wgood w (w_set_dst w m1)) as G1 by (apply wgood_set_dst; auto; apply same_len_grows; auto).
+  apply (kfold_post (wgood w)); [|exact G1].
+  intros i wa Hi Ga. apply in_iota in Hi. pose proof Ga as (Da & Gra & Sa & Ra). rewrite Sa.
+  pose proof (struct_ptr_safe c (w_src w) (w_src_rl wa) s i Hm Hs ltac:(lia)) as SS.
+  pose proof (struct_ptr_charge c (w_src w) (w_src_rl wa) s i ltac:(lia)) as [SC _].
+  pose proof (fun q => readPtr_shape (cfg_strict c) (w_src w) (w_src_rl wa) (p_seg s) (seg_of (w_src w) s)
+                         (pointerAddress s i) (p_depth s) q) as SH.
+  assert (forall q, fst (struct_ptr c (w_src w) (w_src_rl wa) s i) = Ok q -> shape_ok q) as SH'.
+  { intros q. unfold struct_ptr. destruct (_ || _); [cbn [fst]; intros E; inversion E; apply shape_null|apply SH]. }
+  destruct (struct_ptr c (w_src w) (w_src_rl wa) s i) as [r rl']. cbn [fst snd] in *.
+  destruct r as [p| |]; cbn [of_res kbind res_sat] in *; [|exact I|exact SS].
+  pose proof (wgood_rl w wa rl' Ga SC) as Gb.
+  pose proof (IH (w_set_rl wa InSrc rl') (p_seg dst) p) as CP. cbn [w_set_rl w_dst w_src w_src_rl] in CP.
+  specialize (CP Da ltac:(rewrite Sa; exact Hm) ltac:(lia)
+                 ltac:(destruct Rd as (R1 & _); destruct Gra as [Gn _]; lia)
+                 ltac:(rewrite Sa; apply SS; exact Hc) (SH' p eq_refl)).
+  destruct (canonical_ptr c fx f _ (p_seg dst) p) as [[w2 cp]| | |]; cbn [kbind]; [|exact I|exact CP|exact I].
+  destruct CP as [G2 Cp]. pose proof (wgood_trans _ _ _ Gb G2) as Gw2. destruct Gw2 as (D2 & Gr2 & S2 & R2).
+  unfold struct_set_ptr. rewrite Vd. cbn [negb orb]. destruct (i >=? PointerCount (p_size dst)) eqn:Ei; [lia|].
+  pose proof (write_ptr_nocopy_safe 3 w2 (p_seg dst) (pointerAddress dst i) cp D2 ltac:(lia)
+                ltac:(eapply region_grows; [exact Gr2|]; apply dst_ptr_slot; auto; lia) Cp) as WP.
+  destruct (write_ptr 4 true w2 (p_seg dst) (pointerAddress dst i) InDst cp false) as [w3| |];
+    cbn [of_res rpost] in *; [|exact I|exact WP].
+  eapply wgood_trans; [|exact WP]. split; [exact D2|]. split; [exact Gr2|]. split; [exact S2|exact R2].
+Qed.
